@@ -295,7 +295,7 @@ class Harness:
                                              allow_proxy_acks=False))
         return out
 
-    def ev_ping(self, side, which):
+    def ev_ping(self, side, which, ackmode="none"):
         """`side` sends a StartPingCheck naming one of its own packet IDs as its oldest unacknowledged one: the peer must be told
         the wire ID that packet travelled under (or an older still-unacknowledged packet of the proxy's own in that direction)"""
         dm = self.dirs[side]
@@ -309,13 +309,24 @@ class Harness:
         pid = self.next_id[side]
         self.next_id[side] = pid + 1
         self.sent[side][pid] = {"reliable": False}
-        msg = Message("StartPingCheck", Block("PingID", PingID=pid & 0xFF, OldestUnacked=o), packet_id=pid, flags=0, direction=DIR_FROM[side])
+        # (a keep-alive can carry piggy-backed acks like any other packet)
+        acks = self._pick_acks(side, ackmode)
+        if ackmode != "none" and not acks:
+            del self.sent[side][pid]
+            self.next_id[side] = pid
+            return None
+        msg = Message("StartPingCheck", Block("PingID", PingID=pid & 0xFF, OldestUnacked=o), packet_id=pid, flags=int(PacketFlags.ACK) if acks else 0,
+                      acks=tuple(acks), direction=DIR_FROM[side])
         if self.wire:
             msg = DESER.deserialize(bytes(SER.serialize(msg)))
             msg.direction = DIR_FROM[side]
         msg.synthetic = False
         self.c.emitted.clear()
         self.c.collect_acks(msg)
+        self._note_acked(side, list(acks))
+        exp_to = {V: Counter(), S: Counter()}
+        for a in self._translate(side, acks):
+            exp_to[OTHER[side]][a] += 1
         try:
             self.c.send(msg)
         except Exception as e:
@@ -332,7 +343,7 @@ class Harness:
             out.append(("ping:oldest-unacked", "StartPingCheck from %s naming its packet %d went out with OldestUnacked %r, that packet's wire id is %d "
                         "(proxy's own pending %r)" % (side, o, em[0]["oldest"], dm.eff(o), pending)))
         self.flags.add("ping")
-        out.extend(self._check_emissions({V: Counter(), S: Counter()},
+        out.extend(self._check_emissions(exp_to,
                                          [{"dir": DIR_FROM[side], "pid": wire, "name": "StartPingCheck", "reliable": False, "resent": False}], allow_proxy_acks=None))
         return out
 
@@ -488,7 +499,7 @@ class Harness:
         elif kind == "redrop":
             r = self.ev_send(ev[1], True, ev[2], drop=True, redrop=True)
         elif kind == "ping":
-            r = self.ev_ping(ev[1], ev[2])
+            r = self.ev_ping(ev[1], ev[2], ev[3] if len(ev) > 3 else "none")
         elif kind == "retake":
             r = self.ev_send(ev[1], bool(ev[3]) if len(ev) > 3 else False, ev[2], drop=True, retake=True)
         elif kind == "resend":
@@ -605,6 +616,7 @@ EV = st.one_of(
     st.tuples(st.just("retake"), st.sampled_from([V, S]), st.sampled_from(["all", "mix", "oldest", "none"]), st.booleans()),
     st.tuples(st.just("redrop"), st.sampled_from([V, S]), st.sampled_from(["none", "all", "mix"])),
     st.tuples(st.just("ping"), st.sampled_from([V, S]), st.sampled_from(["oldest", "newest", "next"])),
+    st.tuples(st.just("ping"), st.sampled_from([V, S]), st.sampled_from(["oldest", "newest", "next"]), st.sampled_from(["all", "mix", "realonly"])),
     st.tuples(st.just("inject"), st.sampled_from([V, S]), st.booleans()),
     st.tuples(st.just("inject"), st.sampled_from([V, S]), st.just(True)),
     st.tuples(st.just("tick"), st.sampled_from([3.1, 3.1, 1.0, 6.5, 3.0, 1.0, 0.5, 1.5])),
